@@ -173,6 +173,14 @@ def to4(R, t, bottom=(0.0, 0.0, 0.0, 1.0)):
 
 
 def gen_cases(ctx):
+    base = list(base_cases(ctx))
+    yield from base
+    # L3: the same values as int / float32 / Fortran-ordered / strided-view / read-only arrays (lists where accepted)
+    r = ctx.rng
+    yield from flavoured(r, r.sample(base, min(len(base), 1500 if ctx.thorough else 450)))
+
+
+def base_cases(ctx):
     r = ctx.rng
     k = 25 if ctx.thorough else 3
     # corpus: hand-made cases at the decision points
@@ -266,12 +274,20 @@ def close_pair(r):
     return {"kind": "se3", "grid": False, "close": how, "a": a.tolist(), "b": b.tolist()}
 
 
+def flavoured(r, cases):
+    """array flavours of the arguments (L3): the values are unchanged, so the judgement is the same"""
+    for c in cases:
+        c = dict(c)
+        c["flavour"] = r.choice(FLAVOURS)
+        yield c
+
+
 def member_case(r):
     """group elements and controlled departures from the group"""
     R, _ = any_rot(r)
     t = translation(r) if r.random() < 0.7 else translation(r, True)
     what = r.choice(["rotation", "rotation", "reflection", "scaled", "sheared", "bottom", "sim3",
-                     "near-scale", "near-shear", "near-det", "sim3-wrong-scale"])
+                     "near-scale", "near-shear", "near-det", "sim3-wrong-scale", "zero-scale", "neg-scale"])
     Rn = np.array(R)
     bottom = (0.0, 0.0, 0.0, 1.0)
     s = None
@@ -297,6 +313,14 @@ def member_case(r):
     elif what == "sim3":
         s = 10.0 ** r.uniform(-4, 4)
         Rn = Rn * s
+    elif what == "zero-scale":
+        Rn = Rn * 0.0
+    elif what == "neg-scale":
+        # s·R with s < 0 is a scaled reflection.  With s = None evo must reject it; an explicit negative `s` is outside the
+        # documented domain ("positive, non-zero scale factor"): compared with the model only (observation, see manifest note)
+        sc = -(10.0 ** r.uniform(-2, 2))
+        Rn = Rn * sc
+        s = r.choice([None, sc])
     elif what == "sim3-wrong-scale":
         s = 10.0 ** r.uniform(-2, 2)
         Rn = Rn * s
@@ -335,53 +359,99 @@ def L(a):
     return np.asarray(a, dtype=float).tolist()
 
 
+FLAVOURS = ("int", "f32", "fortran", "slice", "readonly", "list")
+
+
+def arr(x, case):
+    """the argument array in the flavour of the case (same values: int/float32 only where exactly representable)"""
+    fl = case.get("flavour")
+    a = np.array(x, dtype=float)
+    if fl in ("int", "f32") and case.get("grid") is False:
+        return a          # narrower dtypes only where every operation stays exact (numpy computes in the argument's dtype)
+    if fl == "int":
+        b = a.astype(np.int64)
+        return b if (b == a).all() else a
+    if fl == "f32":
+        b = a.astype(np.float32)
+        return b if (b.astype(float) == a).all() else a
+    if fl == "fortran":
+        return np.asfortranarray(a) if a.ndim == 2 else a[::1]
+    if fl == "slice":        # non-contiguous view into a larger base array
+        if a.ndim == 2:
+            big = np.full((2 * a.shape[0] + 1, 2 * a.shape[1] + 3), 7.0)
+            big[1::2, 2:2 + 2 * a.shape[1]:2] = a
+            return big[1::2, 2:2 + 2 * a.shape[1]:2]
+        big = np.full(2 * a.shape[0] + 1, 7.0)
+        big[1::2] = a
+        return big[1::2]
+    if fl == "readonly":
+        a.setflags(write=False)
+        return a
+    if fl == "list" and case["kind"] in ("hatvee", "explog"):      # the only functions that take sequences
+        return a.tolist()
+    return a
+
+
+def same(x, y):
+    return np.array_equal(np.asarray(x, dtype=float), np.asarray(y, dtype=float))
+
+
 def run_impl_(case):
     from evo.core import lie_algebra as lie
     k = case["kind"]
     if k == "hatvee":
-        v = np.array(case["v"])
+        v = arr(case["v"], case)
         h = lie.hat(v)
-        return {"hat": L(h), "vee": L(lie.vee(h))}
+        hv = arr(L(h), case)
+        if isinstance(hv, list):
+            hv = np.array(hv)        # vee indexes m[i, j]: nested lists are not accepted
+        return {"hat": L(h), "vee": L(lie.vee(hv))}
     if k == "se3":
-        a, b = np.array(case["a"]), np.array(case["b"])
-        a0, b0 = a.copy(), b.copy()
+        a, b = arr(case["a"], case), arr(case["b"], case)
+        a0, b0 = np.array(a, dtype=float), np.array(b, dtype=float)
         out = {"se3": L(lie.se3(a[:3, :3], a[:3, 3])), "inv": L(lie.se3_inverse(a)),
                "rel": L(lie.relative_se3(a, b)), "rel_self": L(lie.relative_se3(a, a)),
                "relso3": L(lie.relative_so3(a[:3, :3], b[:3, :3])), "so3": L(lie.so3_from_se3(a)),
                "is_se3": bool(lie.is_se3(a)), "is_so3": bool(lie.is_so3(a[:3, :3]))}
-        out["unchanged"] = bool((a == a0).all() and (b == b0).all())
+        out["unchanged"] = same(a, a0) and same(b, b0)
         return out
     if k == "sim3":
-        R, t, s = np.array(case["R"]), np.array(case["t"]), case["s"]
+        R, t, s = arr(case["R"], case), arr(case["t"], case), case["s"]
         S = lie.sim3(R, t, s)
-        return {"sim3": L(S), "scale": float(lie.sim3_scale(S)), "inv": L(lie.sim3_inverse(S)),
-                "inv_scale": float(lie.sim3_scale(lie.sim3_inverse(S))), "is_sim3": bool(lie.is_sim3(S)),
-                "is_sim3_s": bool(lie.is_sim3(S, s))}
+        S0 = S.copy()
+        out = {"sim3": L(S), "scale": float(lie.sim3_scale(S)), "inv": L(lie.sim3_inverse(S)),
+               "inv_scale": float(lie.sim3_scale(lie.sim3_inverse(S))), "is_sim3": bool(lie.is_sim3(S)),
+               "is_sim3_s": bool(lie.is_sim3(S, s))}
+        out["unchanged"] = same(S, S0) and same(R, case["R"]) and same(t, case["t"])
+        return out
     if k == "member":
-        m = np.array(case["m"])
+        m = arr(case["m"], case)
         import warnings
         with warnings.catch_warnings():
             warnings.simplefilter("ignore")
             sc = float(lie.sim3_scale(m))
             out = {"so3": bool(lie.is_so3(m[:3, :3])), "se3": bool(lie.is_se3(m)), "scale": sc,
                    "sim3": bool(lie.is_sim3(m)) if case["s"] is None else bool(lie.is_sim3(m, case["s"]))}
+        out["unchanged"] = same(m, case["m"])
         return out
     if k == "angle":
-        A, B, C, T = (np.array(case[x]) for x in "ABCT")
+        A, B, C, T = (arr(case[x], case) for x in "ABCT")
         ang = lambda X, Y: lie.so3_log_angle(lie.relative_so3(X, Y))
         rel = lie.relative_so3(A, B)
-        return {"rel": L(rel), "ab": ang(A, B), "ba": ang(B, A), "bc": ang(B, C), "ac": ang(A, C), "aa": ang(A, A),
-                "left": ang(T @ A, T @ B), "right": ang(A @ T, B @ T),
-                "deg": lie.so3_log_angle(rel, degrees=True)}
+        out = {"rel": L(rel), "ab": ang(A, B), "ba": ang(B, A), "bc": ang(B, C), "ac": ang(A, C), "aa": ang(A, A),
+               "left": ang(T @ A, T @ B), "right": ang(A @ T, B @ T),
+               "deg": lie.so3_log_angle(rel, degrees=True)}
+        out["unchanged"] = all(same(X, case[x]) for X, x in zip((A, B, C, T), "ABCT"))
+        return out
     if k == "explog":
-        v = np.array(case["v"])
+        v = arr(case["v"], case)
         R = lie.so3_exp(v)
         back = lie.so3_log(R)
         return {"exp": L(R), "log": L(back), "skew": L(lie.so3_log(R, return_skew=True)), "angle": lie.so3_log_angle(R)}
     if k == "log":
-        R = np.array(case["R"])
+        R = arr(case["R"], case)
         v = lie.so3_log(R)
-        return {"log": L(v), "exp": L(lie.so3_exp(v))}
+        return {"log": L(v), "exp": L(lie.so3_exp(v)), "unchanged": same(R, case["R"])}
     raise ValueError(k)
 
 
@@ -500,6 +570,10 @@ def judge(ctx, case, impl, outs):
         ctx.fail(case, "no-unexpected-exception", impl["crash"])
         ctx.record(case, False)
         return
+    if impl.get("unchanged") is False:
+        ctx.fail(case, "inputs-unmodified", "a lie_algebra function changed one of its arguments")
+    if case.get("flavour"):
+        ctx.count("dist", "flavour:" + case["flavour"])
     bad = nonfinite(impl)
     if bad:
         # NaN/inf in evo's output for finite input is a failure of the law concerned, never a harness crash
@@ -692,6 +766,14 @@ def judge_member(ctx, case, impl, outs):
     elif what == "bottom":
         if impl["se3"] or impl["sim3"]:
             ctx.fail(case, "member-reject-bottom-row", f"bottom row {case['m'][3]} accepted: se3={impl['se3']} sim3={impl['sim3']}")
+    elif what == "zero-scale":
+        if impl["so3"] or impl["se3"] or impl["sim3"]:
+            ctx.fail(case, "member-reject-scaled", f"zero block accepted: so3={impl['so3']} se3={impl['se3']} sim3={impl['sim3']}")
+    elif what == "neg-scale":
+        if impl["so3"] or impl["se3"] or (case["s"] is None and impl["sim3"]):
+            ctx.fail(case, "member-reject-reflection", f"negatively scaled block accepted: so3={impl['so3']} se3={impl['se3']} sim3={impl['sim3']}")
+        if case["s"] is not None and impl["sim3"]:
+            ctx.count("branch", "is_sim3(p, s<0) accepts the scaled reflection (outside the documented domain of s)")
     elif what == "sim3-wrong-scale":
         rel = abs(impl["scale"] / case["s"] - 1) if math.isfinite(impl["scale"]) else 1
         if rel >= 1e-4 and impl["sim3"]:
@@ -801,11 +883,35 @@ def judge_log(ctx, case, impl, outs):
 
 
 # ----------------------------------------------------------------------------- plumbing
+DEGENERATE = [{"kind": "member", "what": "reflection", "m": [[1.0, 0, 0, 0], [0, 1.0, 0, 0], [0, 0, -1.0, 0], [0, 0, 0, 1.0]], "s": None},
+              {"kind": "explog", "v": [0.0, math.pi, 0.0]},
+              {"kind": "member", "what": "zero-scale", "m": [[0.0, 0, 0, 1], [0, 0.0, 0, 2], [0, 0, 0.0, 3], [0, 0, 0, 1.0]], "s": None},
+              {"kind": "log", "R": [[-1.0, 0, 0], [0, -1.0, 0], [0, 0, 1.0]]}]
+
+
+def history_independent(ctx, cases, impls):
+    """L2: a call right after a degenerate call (reflection, angle π, zero block) must give the result it gave before"""
+    import json
+    step = max(1, len(cases) // 120)
+    for i in range(0, len(cases), step):
+        run_impl(DEGENERATE[(i // step) % len(DEGENERATE)])
+        again = run_impl(cases[i])
+        if json.dumps(again, sort_keys=True) != json.dumps(impls[i], sort_keys=True):
+            ctx.fail(cases[i], "result-independent-of-call-history",
+                     "the same call gives a different result after other calls in the same process")
+        ctx.count("branch", "repeated after a degenerate call")
+
+
 def evaluate(ctx, cases):
     impls = [run_impl(c) for c in cases]
+    if len(cases) > 50:
+        history_independent(ctx, cases, impls)
     lines, spans = [], []
     for c, im in zip(cases, impls):
-        ls = model_lines(c) + second_lines(c, im)
+        try:
+            ls = model_lines(c) + second_lines(c, im)
+        except (ValueError, OverflowError):      # a non-finite value of evo: reported by `judge`, never a harness crash
+            ls = []
         spans.append((len(lines), len(ls)))
         lines += ls
     outs = core.run_driver(lines, prop="C09")
